@@ -278,13 +278,17 @@ func (d Decimal) Div(input Decimal) Decimal {
 	return Decimal(decimal.Decimal(d).Div(decimal.Decimal(input)))
 }
 
-// FloorDiv divides d by input and rounds down.
+// FloorDiv divides d by input and truncates the quotient toward zero.
+// Returns ErrIntOverflow if the quotient does not fit an Integer.
 func (d Decimal) FloorDiv(input Decimal) (Integer, error) {
-	result := decimal.Decimal(d).Div(decimal.Decimal(input)).IntPart()
-	if (result < math.MinInt32) || (result > math.MaxInt32) {
+	// The exact integer quotient: rounding the quotient to DivisionPrecision
+	// digits first would turn 0.99999999999999999 into 1.
+	quotient, _ := decimal.Decimal(d).QuoRem(decimal.Decimal(input), 0)
+	result := quotient.BigInt()
+	if !result.IsInt64() || result.Int64() < math.MinInt32 || result.Int64() > math.MaxInt32 {
 		return 0, ErrIntOverflow
 	}
-	return Integer(int32(result)), nil
+	return Integer(int32(result.Int64())), nil
 }
 
 // Mod computes d % input.
